@@ -16,3 +16,25 @@ package netio
 //@   modifies nothing
 //@   ensures 0 <= result0 && result0 <= len(b)
 //@   ensures isnil(result1) ==> result0 == len(b)
+
+// ---------------------------------------------------------------------------
+// Relay of one connection pair (property C13): when the copy towards one side ends, that side's writing
+// direction is shut down there and then - before waiting for the opposite direction to finish - so the
+// end of stream is passed on while the other direction keeps flowing. The ghost variable closeWriteLast
+// holds the identity of the value whose CloseWrite was called last by the executing goroutine.
+// ---------------------------------------------------------------------------
+
+//@ func (ReadWriter).CloseWrite
+//@   trusted
+//@   modifies $closeWriteLast
+//@   ensures $closeWriteLast == ifaceptr(self)
+
+//@ func BidirectionalCopy
+//@   requires !isnil(left) && !isnil(right)
+//@   requires $closeWriteLast != ifaceptr(left)
+//@   callsite WaitGroup).Wait: $closeWriteLast == ifaceptr(left)
+
+// The goroutine copying towards the right side shuts that side's writing direction down when its copy ends.
+//@ func BidirectionalCopy$1
+//@   requires $closeWriteLast != ifaceptr(right)
+//@   ensures $closeWriteLast == ifaceptr(right)
